@@ -14,7 +14,20 @@ PROP = dict(
           "the k-th effect (every ArbitratorLog write, MarkChannelClosed, switch/"
           "beacon/final-outcome/report/notification side effect, every "
           "NurseryStore write and nursery publish) and restarted on the same "
-          "bolt file, plus sampled double crashes. Oracles per crashed run: "
+          "bolt file, plus sampled double crashes. Between the death of a "
+          "process life and the start of the next one the chain advances by a "
+          "generated number of blocks d in {0,1,2,CSV-1,CSV,CSV+1,CSV+3,2*CSV+3} "
+          "(CSV=4; three values per scenario, picked by the number of effects on "
+          "record at the stop, so one scenario has restarts without and with "
+          "downtime): transactions the node had published confirm, the peer's "
+          "planned claims happen, CSV delays run out while nobody listens; the "
+          "next life learns it the way lnd's notifier presents it (tip from "
+          "ChainIO.GetBestBlock / first epoch of a subscriber that names no best "
+          "block, historical confirmations and spends on re-registration, epochs "
+          "only for new blocks). All runs of a scenario, the uninterrupted one "
+          "included, are driven over the same chain: a run that does not become "
+          "fully resolved ends at the common last height (old horizon + 2*max d). "
+          "Oracles per crashed run: "
           "outcome sets equal to the uninterrupted run (terminal state, contracts "
           "left, upstream resolutions, final outcomes, reports, nursery hand-offs, "
           "preimages), no new contradiction, resolved only with 0 contracts left; "
@@ -51,7 +64,8 @@ PROP = dict(
         "taproot: the C12 scenario is generated as an anchors/zero-fee channel and its resolutions are re-dressed as lnwallet dresses them for a taproot commitment (P2TR outputs, tapscript leaves as witness scripts, well-formed control blocks on every script-path sign descriptor and in the second-level witnesses, tap tweak on the anchor, optional resolution blobs); every byte string is a distinct function of (commitment, HTLC, role). Signatures are placeholders: validity of the spends is C05's subject, here only persistence/equality. FetchHistoricalChannel returns the taproot channel type and the delay/payment base points the commit-sweep resolver compares the sign key with. The peer's preimage claims and the world's answers to sweep requests have the taproot witness shapes (the answer is built from the offered input's leaf script, control block and preimage)",
         "SignDescriptor.SignMethod is not compared (not persisted by lnd; the witness generators set it)",
         "utxo nursery, 3 of 4 pre-anchor cases: a real UtxoNursery per process life on a real NurseryStore in the same bolt file, started before the arbitrator (reloadPreschool/reloadClasses after a restart); its store writes and PublishTransaction are crash points; confirmation notifications, block epochs and sweep results come from the stub world when pumped; FetchClosedChannel(s) from the world's closed bit. 1 of 4: a world-level stub (publishes the timeout tx at its CLTV, sweeps the second-level output CSV blocks after its confirmation) whose state survives restarts. Published second-level transactions confirm when pumped and only while the HTLC outpoint is unspent. An HTLC with an output is worth >= 1 sat (the nursery ignores zero-value outputs)",
-        "NOT driven: exit-hop invoice settlement (every received HTLC is a forward), mempool preimage detection, re-orgs (neither the arbitrator nor the resolvers document a behaviour for them), the BreachArbitrator (stubbed completion signal; its taproot tap tweaks live in its own retribution store), lease channels, blocks mined while the process is down",
+        "NOT driven: exit-hop invoice settlement (every received HTLC is a forward), mempool preimage detection, re-orgs (neither the arbitrator nor the resolvers document a behaviour for them), the BreachArbitrator (stubbed completion signal; its taproot tap tweaks live in its own retribution store), lease channels",
+        "blocks mined while the process is down ARE driven (0..11 blocks before every restart, see rule): confirmations of published second-level transactions, CSV maturities (nursery kindergarten/crib classes, late registration), confirmation depths and expiries of uncontested HTLCs are crossed while the node is down and must not change the outcome. Restrictions (the downtime is cut short, label offline_capped): (1) no block is mined offline before the channel is marked closed - until then the restarted arbitrator evaluates its chain trigger at the restart height and whether it broadcasts depends on that height by design (C12's subject); (2) while the contest of an incoming HTLC is undecided (contest resolver neither swapped for a success resolver nor given up) the downtime ends before the earliest expiry of an incoming HTLC - a node that is down at the expiry can legitimately no longer claim; (3) a planned on-chain claim of the peer on a still unspent offered-HTLC output is never crossed - who wins such an output depends on who spends first (our timeout path starts at expiry-1 from a contest resolver, at once from a timeout resolver, and the stub sweeper confirms when pumped) and an absent node is never first; (4) once the peer has claimed an offered HTLC before its expiry, the downtime ends before expiry-1 (a contest resolver restored at or after expiry-1 starts the timeout path, incl. the nursery hand-off, before it looks at the spend); (5) not beyond the common last height. Requests pending with the (non-persistent) sweeper when the process dies are dropped as at every restart (the sweeper had not broadcast yet); transactions published through PublishTx/PublishTransaction confirm at the height of the stop, before the first offline block, as they do before the next block of a live run",
         "sweeps confirm when the harness pumps them; the sweeper, notifier, switch, witness beacon are deterministic stubs whose state survives restarts like the chain / other subsystems would",
         "kvdb.Batch is routed to a plain Update (bbolt's 10ms batch timer removed); same atomicity",
         "outcome sets exclude the commitment transaction itself; in levels A/B NotifyChannelResolved stands for MarkChannelResolved + WipeHistory of ChainArbitrator; level C runs those two writes for real (ChainArbitrator.ResolveContract called synchronously where resolveContracts would call it; the chain arbitrator is not Start()ed, its pending-close arbitrators are loaded with loadPendingCloseChannels)",
@@ -63,7 +77,7 @@ PROP = dict(
                 flaky_is_violation=False, timeout=400),
             job("contractcourt", "^TestVerifC13Repro", ["TestVerifC13ReproRestartInContractClosed",
                 "TestVerifC13ReproResolvedCheckpoint", "TestVerifC13ReproContestOwnSweepPanic",
-                "TestVerifC13ReproTaprootPreimageLost"], 1, shards=1, v=True),
+                "TestVerifC13ReproTaprootPreimageLost", "TestVerifC13ReproCribMaturedWhileDown"], 1, shards=1, v=True),
             job("contractcourt", "^TestVerifC13Finalize$", ["TestVerifC13Finalize"], 120, shards=2),
         ],
         thorough=[
@@ -73,7 +87,7 @@ PROP = dict(
                 env=dict(VERIF_C13_PAIRS=12), timeout=900, flaky_is_violation=False),
             job("contractcourt", "^TestVerifC13Repro", ["TestVerifC13ReproRestartInContractClosed",
                 "TestVerifC13ReproResolvedCheckpoint", "TestVerifC13ReproContestOwnSweepPanic",
-                "TestVerifC13ReproTaprootPreimageLost"], 1, shards=1, v=True),
+                "TestVerifC13ReproTaprootPreimageLost", "TestVerifC13ReproCribMaturedWhileDown"], 1, shards=1, v=True),
             job("contractcourt", "^TestVerifC13Finalize$", ["TestVerifC13Finalize"], 1500, shards=4, timeout=900),
         ],
     ),
